@@ -69,6 +69,8 @@ def renumber(ops):
     keys = list(seen)
     if not keys:
         return None
+    if any(isinstance(o.get(f), (list, tuple)) for o in ops for f in ('u', 'v', 'n')):
+        return None        # tuple ids are left alone
     if all(isinstance(k, int) for k in keys):
         mp = {k: i for i, k in enumerate(keys)}
     elif all(isinstance(k, str) for k in keys):
